@@ -221,6 +221,8 @@ class MinGenSet():
                             product_var=self.pi_vars[(i, j)],
                             lb=0,
                             ub=product_ub,
+                            # the elements of a float generating set can be below 1, where a multiplicity exceeds the product
+                            integer_ub=self.max_multiplicity,
                             name=f"pi_i={i}_j={j}",
                         )
 
